@@ -58,6 +58,8 @@ def to_via(case):
     m["ops"] = [o for o in order if o in m["ops"]]
     m["via"] = "s2m"
     m["link"] = dict(VIA_LINK)
+    # single-link mode or the pooled mode (deadpool; the shipped default is 16 idle connections)
+    m["link"]["idle_conns"] = [1, 1, 16][sum(bytes.fromhex(op.get("bytes", "")[:64] or "00")[0] for op in c["ops"][:9]) % 3]
     c["cfg"]["min_keepalive_ms"] = 3600000
     c["cfg"]["keepalive_ms"] = 3600000
     c["cfg"]["settle_ms"] = 400
@@ -528,9 +530,11 @@ def conformance(cases, observations, tag):
 def acl_histories(r, thorough, types=("join", "publish", "read")):
     """directed: an owner edits one ACL type with random batches, reads it back, then every user probes it"""
     cases = []
-    for _ in range(60 if thorough else 12):
+    for _ in range(80 if thorough else 16):
         cfg = base_cfg(r, None)
-        cfg.update({"max_clients": 10, "max_subs": 10, "max_conns": 16})
+        # the allow-list entry limit is the channel's max_clients: small values make batches overflow it (the refusal is
+        # a POLICY_VIOLATION that also disconnects the owner; another member then inherits the channel and its lists)
+        cfg.update({"max_clients": r.choice([10, 10, 3, 4]), "max_subs": 10, "max_conns": 16})
         g = Gen(r, cfg)
         ks = {}
         for u in USERS:
@@ -581,6 +585,9 @@ def acl_histories(r, thorough, types=("join", "publish", "read")):
             g.send(owner, frame("BROADCAST", [("id", g.rid()), ("channel", ch), ("length", 3)], b"xyz"))
         if ty == "join":
             g.send(owner, frame("JOIN", [("id", g.rid()), ("channel", ch), ("on_behalf", "dave@localhost")]))
+        # whoever owns the channel now reads the list back (the others are refused)
+        for u in USERS:
+            g.send(ks[u], frame("GET_CHAN_ACL", [("id", g.rid()), ("channel", ch), ("type", ty)]))
         cases.append({"cfg": cfg, "ops": g.ops})
     return cases
 
@@ -693,4 +700,46 @@ def split_histories(r, thorough):
                 g.send(ks["carol"], frame("LEAVE", [("id", g.rid()), ("channel", ch)]), [])
             g.ops.append({"t": "send", "k": ks["alice"], "bytes": tail.hex(), "script": [], "split": "tail", "head": head.hex()})
         cases.append({"cfg": cfg, "ops": g.ops})
+    return cases
+
+
+def stalled_drop_histories(r, thorough):
+    """directed, monitors only (a stalled peer's frames are not observed, so the sequential model is not compared):
+    a member stops reading on a tiny socket buffer, the others keep the channel busy until the server is blocked writing
+    to it, then the stalled peer vanishes: its connection ends through the WRITE error path.  Afterwards the audit must
+    find it gone from MEMBERS, the others must have been told (MEMBER_LEFT), and its name must be free again."""
+    import srvmon
+    cases = []
+    for _ in range(40 if thorough else 8):
+        cfg = base_cfg(r, None)
+        cfg.update({"max_clients": 10, "max_subs": 10, "max_conns": 16, "max_channels": 100, "max_inflight": 10, "queue": r.choice([4, 256])})
+        g = Gen(r, cfg)
+        ks = {}
+        for u in ("alice", "bob", "carol"):
+            k = g.next_k
+            g.next_k += 1
+            op = {"t": "open", "k": k}
+            if u == "alice":
+                op["duplex"] = r.choice([64, 256])
+            g.ops.append(op)
+            g.send(k, frame("CONNECT", [("version", 1), ("heartbeat_interval", 0)]), [])
+            g.send(k, frame("IDENTIFY", [("username", u)]), [])
+            g.conns[k] = {"phase": 2, "user": u}
+            ks[u] = k
+        ch = "!c1@localhost"
+        for u in r.sample(["alice", "bob", "carol"], 3):
+            g.send(ks[u], frame("JOIN", [("id", g.rid()), ("channel", ch)]), [])
+        g.ops.append({"t": "stall", "k": ks["alice"], "on": True})
+        for _ in range(r.randint(3, 8)):
+            pl = bytes(r.randrange(256) for _ in range(r.choice([100, 300])))
+            g.send(ks[r.choice(["bob", "carol"])], frame("BROADCAST", [("id", g.rid()), ("channel", ch), ("length", len(pl))], pl), [])
+        g.ops.append({"t": "hangup", "k": ks["alice"], "script": []})
+        del g.conns[ks["alice"]]
+        k = g.next_k
+        g.next_k += 1
+        g.ops.append({"t": "open", "k": k})
+        g.send(k, frame("CONNECT", [("version", 1), ("heartbeat_interval", 0)]), [])
+        g.send(k, frame("IDENTIFY", [("username", "alice")]), [])
+        g.conns[k] = {"phase": 2, "user": "alice"}
+        cases.append({"cfg": cfg, "ops": g.ops + srvmon.audit_ops(g), "nomodel": True})
     return cases
